@@ -271,7 +271,7 @@ def plan(tier):
     sh = []
     for k1 in range(len(KINDS)):
         sh.append({'k1': k1, 'K': 2, 'helper': 0, 'nsizes': 4} if q else {'k1': k1, 'K': 3, 'helper': 0, 'nsizes': 4})
-    sh.append({'k1': 3, 'K': 3, 'helper': 1, 'nsizes': 2})
+    sh.append({'k1': 3, 'K': 3, 'helper': 1, 'nsizes': 1 if q else 2})
     sh.append({'k1': 6, 'K': 2, 'helper': 0, 'obey': 0.5, 'nsizes': 2 if q else 4})
     if not q:
         sh.append({'k1': 0, 'K': 3, 'helper': 0, 'nsizes': 2})
